@@ -299,11 +299,12 @@ impl SubscriptionActor {
     /// its mailbox. The caller is answered once the deletion is complete.
     fn delete(&mut self, responder: oneshot::Sender<Result<(), DeleteError>>) {
         if self.deleted {
-            // A deletion is already under way (or done); answer when it is complete.
+            // Someone else's delete got here first. Answer once that deletion is
+            // complete; for this caller the subscription is gone by then.
             let deleted = self.observer.deleted();
             tokio::spawn(async move {
                 deleted.await;
-                let _ = responder.send(Ok(()));
+                let _ = responder.send(Err(DeleteError::DoesNotExist));
             });
             return;
         }
